@@ -193,6 +193,14 @@ def cases(tier, seed):
 
 
 # --------------------------------------------------------------------------------------------
+def _truthful(o):
+    """harness.truthful, robust against values whose repr raises while the message is rendered."""
+    try:
+        return truthful(o)
+    except Exception as e:
+        return f'dtype does not describe the contents (rendering the offending value raised {type(e).__name__})'
+
+
 _CODE = {}
 
 
@@ -278,7 +286,7 @@ def evaluate(case):
     op0 = ROOT_OP.get(root, 'root:' + root)
     if not check_table(t0, op0, 't0 = ' + ROOTS[root], fails):
         tainted.add('t0')
-    m = truthful(t0)
+    m = _truthful(t0)
     if m and root.startswith('t'):
         fails.append(Fail(f'C03:root:{root}:truthful', m))
     done = ['t0 = ' + ROOTS[root]]
@@ -343,8 +351,8 @@ def evaluate(case):
             if back is None or isinstance(back, str) or not _eq_cells(back, pre):
                 fails.append(Fail('C02:Table.T:double-transpose', f'{hist}: {subject}.T does not give back the cells', pre, back))
         if 'res' in st:
-            mm = truthful(env[subject])
-            if mm and not truthful(x):
+            mm = _truthful(env[subject])
+            if mm and not _truthful(x):
                 fails.append(Fail(f'C03:{op}:truthful', f'{hist}: {mm}'))
     return fails
 
